@@ -379,6 +379,56 @@ def evaluate(case, native):
                 if ok:
                     return True, f'evaluator returned Failure although inserting the job at leg {p} is feasible in simulation'
         return False, 'failure is consistent with the simulation (multi-task failure may be incomplete by design)'
+    if kind == 'writer_tour':
+        import datetime
+        ts = lambda x: int(datetime.datetime.strptime(x, '%Y-%m-%dT%H:%M:%SZ').replace(tzinfo=datetime.timezone.utc).timestamp())
+        sol = native['solution']
+        tour = sol['tours'][0]
+        ref, dur, dist, rates, dims = case['jobs_ref'], case['dur'], case['dist'], case['rates'], case['dims']
+        n = len(ref) + 2
+        t = case['dep0']
+        arr, dep, waits = [t], [t], [0]
+        for i in range(1, n):
+            a = dep[i - 1] + dur[i - 1][i]
+            tws, d = (ref[i - 1]['tws'], ref[i - 1]['dur']) if i <= len(ref) else (0, 0)
+            arr.append(a)
+            waits.append(max(tws - a, 0))
+            dep.append(max(a, tws) + d)
+        total_dist = sum(dist[i][i + 1] for i in range(n - 1))
+        driving = sum(dur[i][i + 1] for i in range(n - 1))
+        serving = sum(r['dur'] for r in ref)
+        waiting = sum(waits)
+        exp = {'distance': total_dist, 'duration': dep[-1] - dep[0], 'driving': driving, 'serving': serving, 'waiting': waiting, 'break': 0,
+               'cost': rates[0] + rates[1] * total_dist + rates[2] * (dep[-1] - dep[0])}
+        st = tour['statistic']
+        got = {'distance': st['distance'], 'duration': st['duration'], 'driving': st['times']['driving'], 'serving': st['times']['serving'],
+               'waiting': st['times']['waiting'], 'break': st['times']['break'], 'cost': st['cost']}
+        for k_, v in exp.items():
+            if abs(got[k_] - v) > 1e-6:
+                return True, f'tour statistic {k_}: written {got[k_]}, recomputed from routing data / costs / order {v} (all: written {got}, recomputed {exp})'
+        overall = sol['statistic']
+        if abs(overall['cost'] - exp['cost']) > 1e-6 or overall['distance'] != exp['distance'] or overall['duration'] != exp['duration']:
+            return True, f'overall statistic {overall} is not the sum of the tours ({exp})'
+        stops = tour['stops']
+        if len(stops) != n:
+            return True, f'{len(stops)} stops written for {n} pairwise different locations'
+        cur = [sum(r['amounts'][d] for r in ref if r['kind'] == 'delivery') for d in range(dims)]
+        cum = 0
+        for i, stop in enumerate(stops):
+            if i > 0:
+                cum += dist[i - 1][i]
+                if i <= len(ref):
+                    r = ref[i - 1]
+                    for d in range(dims):
+                        cur[d] += (r['amounts'][d] if r['kind'] == 'pickup' else 0) - (r['amounts'][d] if r['kind'] == 'delivery' else 0)
+            want_load = [0] * dims if i == n - 1 else cur
+            if list(stop['load'])[:dims] != want_load and not (not any(want_load) and not any(stop['load'])):
+                return True, f'stop {i}: written load {stop["load"]}, recomputed {want_load}'
+            if stop['distance'] != cum:
+                return True, f'stop {i}: written cumulative distance {stop["distance"]}, recomputed {cum}'
+            if ts(stop['time']['arrival']) != arr[i] or ts(stop['time']['departure']) != dep[i]:
+                return True, f'stop {i}: written times {stop["time"]}, recomputed arrival {arr[i]} departure {dep[i]}'
+        return False, 'written statistic, loads, distances and times equal the recomputation'
     if kind == 'tour_order':
         def greater(a, b):
             return (a['kind'] == 'value' and b['kind'] == 'value' and a['value'] > b['value']) or (a['kind'] == 'default' and b['kind'] == 'value')
